@@ -294,6 +294,7 @@ def lift(c):
     if isinstance(c, int): return VI(c)
     if isinstance(c, float): return VR(z3.RealVal(repr(c)))
     if isinstance(c, str): return VS(c)
+    if isinstance(c, bytes): return VS(c.decode('latin-1'))        # only ever used as a tag
     if c is None: return VNone()
     raise OutOfReach(f'constant {c!r}')
 
@@ -624,6 +625,10 @@ class Exec:
 
     def eq(self, a, b):
         """python a == b  (see A-eq)."""
+        hk = self.c.get('eq_hook')
+        if hk is not None:
+            r = hk(self, a, b)
+            if r is not None: return r
         if a.kind == 'none' or b.kind == 'none':
             o = b if a.kind == 'none' else a
             if o.kind == 'none': return z3.BoolVal(True)
